@@ -4,5 +4,7 @@ D=/verif/seeded/$1; shift
 cd /repo && git status --short | grep -q . && { echo "repo not clean"; exit 9; }
 git -C /repo apply $D/patch.diff || { echo "patch does not apply"; exit 8; }
 cd /verif
+rm -rf /tmp/ev.bak.$$; cp -r evidence /tmp/ev.bak.$$   # checks on a changed tree must not leave their evidence behind
 for p in "$@"; do ./check $p | tail -4; echo "  -> exit ${PIPESTATUS[0]}"; done
 git -C /repo checkout -- .
+rm -rf /verif/evidence; mv /tmp/ev.bak.$$ /verif/evidence
